@@ -350,16 +350,30 @@ def read_oracle(chk, judges, twin, t, rng, store, i):
                 continue                  # the plain document of this store already fails: reported under its own signature
             iw = c05_spec.IndependentWriter(t, dict(knobs))
             try:
+                # validity: the twin validators judge every document (their agreement with jsonschema / lxml is checked
+                # on every document of the writing oracle and, for the Coq validators, in the correspondence); the real
+                # validators - by far the slowest step - judge every plain document and every third variant document
+                chk._c05_n = getattr(chk, "_c05_n", 0) + 1
+                real = vsig is None or chk._c05_n % 3 == 0
                 if fmt == "json":
                     d = iw.json_env(canons)
                     data = json.dumps(d)
-                    valid = judges.json_valid(d)
-                    loc = twin.jdoc(d)[0][:3] if not valid else []
+                    loc = twin.jdoc(d)[0][:3]
+                    valid = not loc
+                    if real and judges.json_valid(d) != valid:
+                        chk.tie_broken("twin-json", {"variant": vsig, "jsonschema": not valid, "twin_errors": loc})
+                        valid = False
                 else:
                     root = iw.xml_env(canons)
                     data = judges.etree.tostring(root, xml_declaration=True, encoding="utf-8")
-                    valid = judges.xml_valid(judges.etree.fromstring(data))
-                    loc = judges.xml_errors() if not valid else []
+                    parsed = judges.etree.fromstring(data)
+                    loc = twin.xdoc(parsed)[0][:3]
+                    valid = not loc
+                    if real and judges.xml_valid(parsed) != valid:
+                        chk.tie_broken("twin-xml", {"variant": vsig, "lxml": not valid, "twin_errors": loc,
+                                                    "lxml_errors": judges.xml_errors()})
+                        valid = False
+                chk.count("read:judged-by:" + ("real+twin" if real else "twin"))
             except Exception as e:
                 chk.tie_broken("independent-writer", f"{fmt} {vsig}: {type(e).__name__}: {e}")
                 continue
@@ -414,9 +428,12 @@ def sig(direction, fmt, err):
 
 
 def skeleton_sig(fmt, d):
-    path = d.partition(": ")[0]
-    parts = [p.split("[")[0] for p in path.split("/") if p and p not in ("kids",)]
-    return f"C05:write:{fmt}:mapping:{'/'.join(parts[-2:])}:{'missing-or-extra' if 'missing' in d or 'length' in d else 'differs'}"
+    path, _, what = d.partition(": ")
+    parts = [p.split("[")[0] for p in path.split("/") if p]
+    parts = [p for p in parts if p not in ("kids",) and not p.startswith("http")]
+    kind = "missing-or-extra" if ("missing" in what or what.startswith("length")) else "differs"
+    names = re.findall(r"'(\w+)'", what)[:1] if fmt == "xml" and "missing" in what else []
+    return f"C05:write:{fmt}:mapping:{'/'.join(parts[-2:] + names)}:{kind}"
 
 
 def write_oracle(chk, judges, twin, store, i, strings, t=None):
@@ -464,7 +481,7 @@ def write_oracle(chk, judges, twin, store, i, strings, t=None):
     write_aas_xml_file(bio, store)
     root = judges.etree.fromstring(bio.getvalue())
     try:
-        df = aasgen.diff(c05_spec.xskel(iw.xml_env(canons)), c05_spec.xskel(root))
+        df = c05_spec.xskel_diff(c05_spec.xskel(iw.xml_env(canons)), c05_spec.xskel(root))
     except Exception as e:
         chk.tie_broken("independent-writer", f"xml skeleton: {type(e).__name__}: {e}")
         df = None
@@ -475,6 +492,23 @@ def write_oracle(chk, judges, twin, store, i, strings, t=None):
                  f"literals and defaulted attributes masked): prescribed != written at {df[:300]}",
                  {"how": f"seed={chk.seed} store #{i} ({strings}); re-run ./check C05", "ids": ids, "difference": df,
                   "document": bio.getvalue().decode("utf-8")[:20000]})
+    # a second rendering that is kept as an element tree until the NEXT store has been rendered in the same process:
+    # state shared between renderings (cached elements, class-level tables) shows up as a change of the earlier tree
+    from basyx.aas.adapter.xml.xml_serialization import object_store_to_xml_element
+    held = getattr(chk, "_c05_held", None)
+    chk._c05_held = (object_store_to_xml_element(store), canons, ids)
+    if held is not None:
+        try:
+            dfh = c05_spec.xskel_diff(c05_spec.xskel(iw.xml_env(held[1])), c05_spec.xskel(held[0]))
+        except Exception as e:
+            chk.tie_broken("independent-writer", f"held xml skeleton: {type(e).__name__}: {e}")
+            dfh = None
+        chk.count("mapping:xml-held:" + ("differs" if dfh else "same"))
+        if dfh:
+            chk.fail(skeleton_sig("xml", dfh) + ":after-next-rendering",
+                     "an XML element tree rendered by object_store_to_xml_element changed when the next store was rendered "
+                     f"in the same process: prescribed != tree at {dfh[:300]}",
+                     {"how": f"seed={chk.seed} store #{i - 1} rendered, then store #{i}", "ids": held[2], "difference": dfh})
     for cls, member, vt, lit in c05_spec.typed_values_xml(root):
         chk.count("lexical:xml:" + vt)
         if c05_spec.lexical_ok(vt, lit) is False:
@@ -500,7 +534,7 @@ def write_oracle(chk, judges, twin, store, i, strings, t=None):
 def run(chk):
     rng = chk.rng
     quick = chk.tier == "quick"
-    n_store, n_jcases, n_xcases, n_read = (160, 220, 140, 60) if quick else (2400, 1800, 900, 900)
+    n_store, n_jcases, n_xcases, n_read = (140, 220, 140, 40) if quick else (2400, 1800, 900, 700)
     gen_ok = regenerate(chk)
     if gen_ok:
         ok = chk.theorems("props.C05", THEOREMS, VO)
